@@ -2,6 +2,9 @@
 #[path = "/verif/harness/src/wire.rs"]
 #[allow(dead_code)]
 mod wire;
+#[path = "/verif/harness/src/flt.rs"]
+#[allow(dead_code)]
+mod flt;
 use serde_json::{json, Value};
 use std::io::{BufRead, Write};
 
@@ -17,6 +20,7 @@ pub fn fnv(s: &str) -> String {
 fn main() {
     let args: Vec<String> = std::env::args().collect();
     let inp = std::fs::File::open(&args[1]).expect("open input");
+    let nflt: usize = args.get(3).and_then(|s| s.parse().ok()).unwrap_or(0);
     let mut out = std::io::BufWriter::new(std::fs::File::create(&args[2]).expect("create output"));
     for (i, l) in std::io::BufReader::new(inp).lines().enumerate() {
         let l = l.unwrap();
@@ -32,5 +36,24 @@ fn main() {
             Err(_) => json!({"file": i, "res": "panic", "hash": "-"}),
         };
         writeln!(out, "{}", rec).unwrap();
+        // filtered loading with the same pure filters (see flt.rs)
+        if i < nflt {
+            if let Ok(Ok(plain)) = std::panic::catch_unwind(|| lopdf::Document::load_mem(&bytes)) {
+                for k in 0..flt::NFILTERS {
+                    let ghosts: Vec<u32> = match flt::expectation(&plain, k) {
+                        Some(e) => e["ghosts"].as_array().unwrap().iter().map(|x| x.as_u64().unwrap() as u32).collect(),
+                        None => continue,
+                    };
+                    let rec = match std::panic::catch_unwind(|| flt::load_filtered(&bytes, k)) {
+                        Ok(r) => {
+                            let (res, hash, _, _) = flt::outcome(r, &ghosts);
+                            json!({"file": 200000 + i * 8 + k, "res": res, "hash": hash})
+                        }
+                        Err(_) => json!({"file": 200000 + i * 8 + k, "res": "panic", "hash": "-"}),
+                    };
+                    writeln!(out, "{}", rec).unwrap();
+                }
+            }
+        }
     }
 }
